@@ -5,6 +5,7 @@ import OmplModel.Proofs.RRTConnect
 import OmplModel.Proofs.RRTReal
 import OmplModel.Proofs.LazyPRM
 import OmplModel.Proofs.LazyPRMComp
+import OmplModel.Proofs.LazyPRMFuel
 /-!
 # C01 — geometric planners only report solution paths that are real
 
@@ -708,6 +709,34 @@ theorem lazyprm_components_sound (cfg : LazyPRM.Cfg S D) (starts : Array S) (ptc
           split <;> exact fun h => (gl h).1
   exact ⟨key.same, fun v hv => key.bound v (key.aliveLt v hv), key.sound⟩
 
+/-- **Fuel sufficiency of `markComponent`.**  The model's breadth-first relabelling is bounded by `2·|E| + 2` pops; that
+bound always suffices: if, before the call, every edge joins equal ids or hangs on the seed `v` (whose id is not the new
+one) — the situation right after `addEdge` in `uniteComponents`, and (with no exceptional edge) in the relabelling after
+a removal — then afterwards EVERY edge joins equal ids, i.e. the traversal ran to an empty queue.  Proved with the
+potential `|queue| + #(edge ends not yet carrying the new id)` (`Proofs/LazyPRMFuel.lean`). -/
+theorem lazyprm_relabel_fuel_sufficient (r : LazyPRM.Roadmap S D) (v newC : Nat)
+    (hb : ∀ e ∈ r.edges, e.u < r.comp.size ∧ e.v < r.comp.size)
+    (hpre : ∀ e ∈ r.edges, LazyPRM.compOf r e.u = LazyPRM.compOf r e.v ∨
+      (e.u = v ∧ LazyPRM.compOf r v ≠ newC) ∨ (e.v = v ∧ LazyPRM.compOf r v ≠ newC)) :
+    ∀ e ∈ (LazyPRM.markComponent r v newC).edges,
+      LazyPRM.compOf (LazyPRM.markComponent r v newC) e.u = LazyPRM.compOf (LazyPRM.markComponent r v newC) e.v :=
+  LazyPRM.markComponent_same r v newC hb hpre
+
+/-- hence the self-check that follows `uniteComponents` (insertion side) is redundant: it never changes the flag -/
+theorem lazyprm_unite_selfcheck_redundant (r : LazyPRM.Roadmap S D) (m n : Nat) (w : D)
+    (hsame : ∀ e ∈ r.edges, LazyPRM.compOf r e.u = LazyPRM.compOf r e.v)
+    (hb : ∀ e ∈ r.edges, e.u < r.comp.size ∧ e.v < r.comp.size) (hm : m < r.comp.size) (hn : n < r.comp.size) :
+    (LazyPRM.uniteComponents (LazyPRM.addEdge r m n w) m n).stale = r.stale :=
+  LazyPRM.unite_stale_eq r m n w hsame hb hm hn
+
+/-- and so is the `checkSame` inside the relabelling that follows a removal; what remains behind the hypothesis of
+`lazyprm_components_sound` is `checkNone` alone (no vertex of the graph keeps the removed vertices' old id) -/
+theorem lazyprm_relabel_selfcheck_redundant (c0 : Nat) (l : List Nat) (r : LazyPRM.Roadmap S D)
+    (hsame : ∀ e ∈ r.edges, LazyPRM.compOf r e.u = LazyPRM.compOf r e.v)
+    (hb : ∀ e ∈ r.edges, e.u < r.comp.size ∧ e.v < r.comp.size) :
+    (LazyPRM.relabelNeighbours c0 l r).stale = r.stale :=
+  LazyPRM.relabel_stale_eq c0 l r hsame hb
+
 end LazyPRM
 
 /-! ### non-vacuity: a toy world on the number line
@@ -816,6 +845,15 @@ removal, two edge removals and several relabellings behind it), and the ids are 
 the rest share one component -/
 example : (LazyPRM.solve toyL #[30, 0] 10 toyEvents).rm.stale = false ∧
     (LazyPRM.solve toyL #[30, 0] 10 toyEvents).rm.comp = #[6, 6, 6, 4, 6] := by decide
+/-- fuel sufficiency is not vacuous: a path 0-1-2 with id 0 and a path 3-4 with id 1 get joined by the edge 2-3; the
+smaller side (3, 4) is relabelled to 0 with fuel 2·5+2, every edge joins equal ids and the flag is untouched -/
+def toyRoadmap : LazyPRM.Roadmap Nat Nat :=
+  { states := #[0, 1, 2, 3, 4], alive := #[true, true, true, true, true], vflag := #[false, false, false, false, false],
+    comp := #[0, 0, 0, 1, 1], edges := [⟨0, 1, 1, false⟩, ⟨1, 2, 1, false⟩, ⟨3, 4, 1, false⟩], compCount := 2,
+    sizes := [(0, 3), (1, 2)] }
+example : (LazyPRM.uniteComponents (LazyPRM.addEdge toyRoadmap 2 3 1) 2 3).comp = #[0, 0, 0, 0, 0] ∧
+    (LazyPRM.uniteComponents (LazyPRM.addEdge toyRoadmap 2 3 1) 2 3).stale = false ∧
+    (LazyPRM.uniteComponents (LazyPRM.addEdge toyRoadmap 2 3 1) 2 3).sizes = [(0, 5)] := by decide
 /-- interrupted before the last sample: TIMEOUT, nothing added, the removed vertex stays removed -/
 example : (LazyPRM.solve toyL #[30, 0] 10 (toyEvents.take 5)).status = .timeout ∧
     (LazyPRM.solve toyL #[30, 0] 10 (toyEvents.take 5)).added = none ∧
